@@ -296,7 +296,9 @@ pub fn run(tier: Tier) -> CheckResult {
     // names / keys across modes
     let mut name_projects: Vec<String> = vec!["base:b0".into(), "base:b1".into(), "base:b2".into()];
     for conv in 0..c06::conventions().len() {
-        name_projects.push(format!("c06:{}:struct", conv));
+        if !c06::enum_only(conv) {
+            name_projects.push(format!("c06:{}:struct", conv));
+        }
         name_projects.push(format!("c06:{}:enum", conv));
     }
     let nres: Vec<(Vec<Violation>, u64)> = name_projects.par_iter().map(|n| names_case(n)).collect();
@@ -312,7 +314,7 @@ pub fn run(tier: Tier) -> CheckResult {
     res.coverage.set("name_key_projects", name_projects.len() as u64);
     res.coverage.set("exhaustive", exhaustive);
     res.coverage.set("samples", json!(types.iter().step_by((types.len() / 6).max(1)).take(6).map(|t| t.to_rust()).collect::<Vec<_>>()));
-    res.coverage.set("rule", "C05's type enumeration placed at the field and parameter sites, generated in Zod mode; the field / parameter schema is read back from the parsed z.object(...) initialiser into a Shape and compared with the reference denotation of the Rust type under the property's relation (null and undefined identified, coerce ignored; z.set / z.map / functions are never equal to arrays / records and are flagged as not JSON-serialisable); plus: for the three base projects and the 18 C06 item groups, the declared names and their key sets (interfaces vs z.infer aliases, literal unions vs z.enum) must be identical in both modes. Non-trivial = composite type whose schema was read and agreed.");
+    res.coverage.set("rule", "C05's type enumeration placed at the field and parameter sites, generated in Zod mode; the field / parameter schema is read back from the parsed z.object(...) initialiser into a Shape and compared with the reference denotation of the Rust type under the property's relation (null and undefined identified, coerce ignored; z.set / z.map / functions are never equal to arrays / records and are flagged as not JSON-serialisable); plus: for the three base projects and the C06 item groups (one per container setting and item kind), the declared names and their key sets (interfaces vs z.infer aliases, literal unions vs z.enum) must be identical in both modes. Non-trivial = composite type whose schema was read and agreed.");
     res.assumptions = vec!["the plain side of the relation is the reference denotation (whether the plain rendering itself matches it is C05's business)".into()];
     res
 }
